@@ -538,7 +538,6 @@ func checkWhoMayDeliver(res *Result, p *Pub, E *Effects, rule string) {
 	res.check(n >= 1, rule, "pub", "-", "a Transport delivery call exists", "none found")
 }
 
-
 // checkStripperUnconditional: nothing can return from the stripper before the
 // value itself has been examined for bto, for bcc and for 'object'. The
 // examination of a member is the setter/getter call on the parameter itself
